@@ -20,9 +20,19 @@ use std::sync::{Arc, Mutex};
 
 const CLAUSE: &str = "answer-equals-fresh-engine";
 
+/// query text of a step: the atom, optionally negated
+fn qtext(a: &Atom, neg: bool) -> String {
+    if neg {
+        format!("NOT {}", a.text())
+    } else {
+        a.text()
+    }
+}
+
 #[derive(Clone, Debug, PartialEq, Eq, Hash)]
 enum Step {
-    Query(Atom),
+    /// (goal, negated)
+    Query(Atom, bool),
     Set(String, Lit),
     Remove(String),
     /// retract, in the attached RETE engine, the explicit fact that mirrors this dotted field
@@ -32,7 +42,7 @@ enum Step {
 impl Step {
     fn to_json(&self) -> Json {
         match self {
-            Step::Query(a) => json!(["query", atom_to_json(a), a.text()]),
+            Step::Query(a, n) => json!(["query", atom_to_json(a), qtext(a, *n), n]),
             Step::Set(f, v) => json!(["set", f, lit_to_json(v)]),
             Step::Remove(f) => json!(["remove", f]),
             Step::ReteRetract(f) => json!(["rete_retract", f]),
@@ -41,7 +51,7 @@ impl Step {
     fn from_json(j: &Json) -> Option<Step> {
         let a = j.as_array()?;
         Some(match a.first()?.as_str()? {
-            "query" => Step::Query(atom_from_json(a.get(1)?)?),
+            "query" => Step::Query(atom_from_json(a.get(1)?)?, a.get(3).and_then(|v| v.as_bool()).unwrap_or(false)),
             "set" => Step::Set(a.get(1)?.as_str()?.to_string(), lit_from_json(a.get(2)?)?),
             "remove" => Step::Remove(a.get(1)?.as_str()?.to_string()),
             "rete_retract" => Step::ReteRetract(a.get(1)?.as_str()?.to_string()),
@@ -84,7 +94,7 @@ impl HCase {
         })
     }
     fn order_dependent(&self) -> bool {
-        self.steps.iter().any(|s| matches!(s, Step::Query(g) if top_candidates(&self.kb, g) > 1))
+        self.steps.iter().any(|s| matches!(s, Step::Query(g, _) if top_candidates(&self.kb, g) > 1))
     }
 }
 
@@ -186,8 +196,8 @@ fn run_history(c: &HCase, rules: &[Rule]) -> Result<Run, String> {
                 }
                 edit_after_query |= seen_query;
             }
-            Step::Query(g) => {
-                let text = g.text();
+            Step::Query(g, neg) => {
+                let text = qtext(g, *neg);
                 // the fresh engine first, on a deep copy of what the caller holds right now
                 let fresh_kb = make_kb(rules)?;
                 let mut fresh_engine = BackwardEngine::with_config(fresh_kb, c.cfg.engine());
@@ -235,9 +245,9 @@ fn confirmed_mismatch(c: &HCase, rules: &[Rule], confirm: usize) -> Result<Optio
 }
 
 fn cause(c: &HCase, step: usize) -> &'static str {
-    if let Some(Step::Query(g)) = c.steps.get(step) {
-        let text = g.text();
-        let asked_before = c.steps[..step].iter().any(|s| matches!(s, Step::Query(p) if p.text() == text));
+    if let Some(Step::Query(g, n)) = c.steps.get(step) {
+        let text = qtext(g, *n);
+        let asked_before = c.steps[..step].iter().any(|s| matches!(s, Step::Query(p, pn) if qtext(p, *pn) == text));
         // the engine caches verdicts by query TEXT only; a later identical text gets the old verdict
         if c.cfg.memo && asked_before {
             return "same-query-text-asked-before-on-this-engine";
@@ -248,7 +258,7 @@ fn cause(c: &HCase, step: usize) -> &'static str {
 
 fn violation_of(c: &HCase, m: &(usize, Ans, Ans)) -> Violation {
     let q = match c.steps.get(m.0) {
-        Some(Step::Query(g)) => g.text(),
+        Some(Step::Query(g, n)) => qtext(g, *n),
         _ => String::new(),
     };
     Violation {
@@ -267,7 +277,7 @@ fn violation_of(c: &HCase, m: &(usize, Ans, Ans)) -> Violation {
 }
 
 fn still_fails(c: &HCase) -> bool {
-    if !c.steps.iter().any(|s| matches!(s, Step::Query(_))) {
+    if !c.steps.iter().any(|s| matches!(s, Step::Query(..))) {
         return false;
     }
     let rules = build_rules_direct(&c.kb);
@@ -369,7 +379,7 @@ fn check_case(c: &HCase, rules: &[Rule], st: &mut Stats) {
     if run.leaked_frames > 0 {
         st.count("histories_that_ended_with_open_undo_frames");
     }
-    let repeated = c.steps.iter().enumerate().any(|(i, s)| matches!(s, Step::Query(g) if c.steps[..i].iter().any(|p| matches!(p, Step::Query(h) if h == g))));
+    let repeated = c.steps.iter().enumerate().any(|(i, s)| matches!(s, Step::Query(g, n) if c.steps[..i].iter().any(|p| matches!(p, Step::Query(h, m) if h == g && m == n))));
     if repeated {
         st.count("histories_repeating_a_query_text");
     }
@@ -417,7 +427,7 @@ fn gen_cfg_c11(rng: &mut Rng, n_rules: usize) -> Cfg {
     // the default depth (10) only for small KBs: the engine has no cycle check, its cost is
     // exponential in the depth bound
     let max_depth = if n_rules <= 4 && rng.chance(1, 2) { 10 } else { *rng.pick(&[2usize, 4, 6]) };
-    Cfg { max_depth, strat, max_solutions: 1, memo: !rng.chance(1, 6) }
+    Cfg { max_depth, strat, max_solutions: *rng.pick(&[1usize, 1, 1, 3, 5]), memo: !rng.chance(1, 6) }
 }
 
 /// A value of another type with the same printed form (where one exists).
@@ -454,7 +464,9 @@ fn gen_history(rng: &mut Rng, plan: &Plan) -> (FactsG, Vec<Step>, bool) {
             let g = rng.pick(&pool).clone();
             // after a proof the derived fields are (probably) present
             present.push(g.field.clone());
-            steps.push(Step::Query(g));
+            // 1 in 8 queries is negated (`NOT goal`)
+            let neg = rng.chance(1, 8);
+            steps.push(Step::Query(g, neg));
         } else {
             match rng.below(10) {
                 0..=3 => {
@@ -499,12 +511,12 @@ fn gen_history(rng: &mut Rng, plan: &Plan) -> (FactsG, Vec<Step>, bool) {
         // targeted: same query before and after a supporting fact changes type but not print
         let g = rng.pick(&pool).clone();
         let (f, v) = rng.pick(&plan.chain).clone();
-        steps = vec![Step::Set(f.clone(), v.clone()), Step::Query(g.clone()), Step::Set(f.clone(), print_alike(&v)), Step::Query(g.clone()), Step::Set(f, v), Step::Query(g)];
+        steps = vec![Step::Set(f.clone(), v.clone()), Step::Query(g.clone(), false), Step::Set(f.clone(), print_alike(&v)), Step::Query(g.clone(), false), Step::Set(f, v), Step::Query(g, false)];
     }
     steps.truncate(6);
-    if !matches!(steps.last(), Some(Step::Query(_))) {
+    if !matches!(steps.last(), Some(Step::Query(..))) {
         steps.pop();
-        steps.push(Step::Query(rng.pick(&pool).clone()));
+        steps.push(Step::Query(rng.pick(&pool).clone(), false));
     }
     (facts, steps, rete)
 }
@@ -557,8 +569,8 @@ impl Check for C11 {
                     Atom { field: end.0.clone(), op: Op::Ne, lit: end.1.clone() }
                 };
                 let alpha = [
-                    Step::Query(q1.clone()),
-                    Step::Query(q2),
+                    Step::Query(q1.clone(), false),
+                    Step::Query(q2, false),
                     Step::Set(root.0.clone(), root.1.clone()),
                     Step::Remove(root.0.clone()),
                     Step::Remove(q1.field.clone()),
@@ -566,7 +578,7 @@ impl Check for C11 {
                 // integer equalities would drag C09's literal finding in; the family uses ordered ints only
                 let fix = |a: &Step| -> Step {
                     match a {
-                        Step::Query(g) if is_int_eq(g) => Step::Query(Atom { field: g.field.clone(), op: if g.op == Op::Eq { Op::Ge } else { Op::Lt }, lit: g.lit.clone() }),
+                        Step::Query(g, n) if is_int_eq(g) => Step::Query(Atom { field: g.field.clone(), op: if g.op == Op::Eq { Op::Ge } else { Op::Lt }, lit: g.lit.clone() }, *n),
                         s => s.clone(),
                     }
                 };
